@@ -43,7 +43,9 @@ Obs(h, cs, pr, lg) ==
   [heads |-> {<<b, h[b], cs[h[b]].content>> : b \in DOMAIN h},
    present |-> pr,
    commits |-> {<<c, cs[c].content, cs[c].parents>> : c \in 1..Len(cs)},
-   loglens |-> {<<b, Len(lg[b])>> : b \in DOMAIN lg}]
+   loglens |-> {<<b, Len(lg[b])>> : b \in DOMAIN lg},
+   \* the whole log of every branch, oldest first, as <<old, new>> commit ids (0 = none)
+   logs |-> {<<b, [i \in 1..Len(lg[b]) |-> <<lg[b][i][1], lg[b][i][2]>>]>> : b \in DOMAIN lg}]
 
 Step(op, ok) == hist' = Append(hist, [op |-> op, ok |-> ok, obs |-> Obs(heads', commits', present', logs')])
 
